@@ -7,7 +7,7 @@
 use jiff::{
     civil::DateTime,
     tz::{AmbiguousZoned, Disambiguation, Offset, OffsetConflict, TimeZone},
-    SignedDuration, SpanRound, Timestamp, ToSpan, Unit, Zoned,
+    RoundMode, SignedDuration, SpanRound, Timestamp, ToSpan, Unit, Zoned, ZonedRound,
 };
 
 use crate::c20::prog::*;
@@ -30,10 +30,14 @@ pub const INSTANTS: [i64; N_INSTANTS as usize] = [
     1_710_054_600,   // 2024-03-10T07:10Z = 03:10 EDT, just after the US gap
     1_730_611_800,   // 2024-11-03T05:30Z = 01:30 EDT, inside the US fold
     1_711_848_600,   // 2024-03-31T01:30Z, just after the EU gap
+    -377_705_023_201, // Timestamp::MIN: APIs that need the start of the day fail here
+    253_402_207_200 + 93_599, // Timestamp::MAX
 ];
 
 pub fn instant(t: u8) -> Timestamp {
-    Timestamp::from_second(INSTANTS[t as usize % INSTANTS.len()]).unwrap()
+    let s = INSTANTS[t as usize % INSTANTS.len()];
+    Timestamp::from_second(s)
+        .unwrap_or(if s < 0 { Timestamp::MIN } else { Timestamp::MAX })
 }
 
 pub fn datetime(i: u8) -> DateTime {
@@ -219,6 +223,12 @@ pub fn zoned_make(z: &Zoned, which: u8, arg: i16) -> Option<Zoned> {
         21 => z.round(Unit::Hour).ok(),
         22 => z.checked_add(h.days()).ok(),
         23 => z.nth_weekday_of_month(1, jiff::civil::Weekday::Friday).ok(),
+        24 => z.round(Unit::Day).ok(),
+        25 => z.round(ZonedRound::new().smallest(Unit::Day).mode(RoundMode::Ceil)).ok(),
+        26 => z.round(ZonedRound::new().smallest(Unit::Minute).increment(30)).ok(),
+        27 => z.round(ZonedRound::new().smallest(Unit::Second).mode(RoundMode::Floor)).ok(),
+        28 => z.with().day(1 + (h.rem_euclid(28)) as i8).minute(0).build().ok(),
+        29 => z.with().year((2000 + h.rem_euclid(40)) as i16).build().ok(),
         _ => None,
     }
 }
